@@ -148,6 +148,15 @@ def generate(rng, tier):
         out.append({'kind': 'unit', 'wave': w, 'value': v, 'unit': u, 'req': 'nm' if r == 2 else UNITS[int(rng.integers(0, 4))], 'omit_unit': r == 2,
                     'fr': [FR[int(x)] for x in sorted(rng.choice(len(FR), int(rng.integers(1, 6)), replace=False))],
                     'fill': [0.0, 1.5, [0.5, 2.0]][int(rng.integers(0, 3))], 'vu': [None, 'wlam'][int(rng.integers(0, 2))]})
+    # integer-dtype centres at the top of a small dtype's range, trapezoid rule, linear spectra (exact bins known): arithmetic
+    # carried out in the centres' dtype overflows here
+    for i in range({'quick': 3, 'thorough': 40, 'search': 40}[tier]):
+        w, _v = _spec(rng, n=int(rng.integers(4, 10)))
+        a_, b_ = dyadic(rng, 0, 2, 3), dyadic(rng, 0, 8, 3)
+        out.append({'kind': 'bin', 'wave': w, 'value': [a_ * x + b_ for x in w], 'linear': [a_, b_], 'm': int(rng.integers(3, 7)), 'uniform': bool(rng.integers(0, 2)),
+                    'fa': 0.25, 'fb': [0.75, 1.0][int(rng.integers(0, 2))], 'jit': [int(x) / 8 for x in rng.integers(0, 7, 8)], 'simps': False,
+                    'ends': ['symmetric', 'inside'][int(rng.integers(0, 2))], 'pp': False, 'fill': 0.0, 'unit': 'nm', 'req': 'nm', 'omit_unit': bool(rng.integers(0, 2)),
+                    'cen_int': True, 'cen_dtype': ['int16', 'int32'][int(rng.integers(0, 2))], 'wscale': True})
     # the same object sampled / binned, given new values through the `value` setter (and new wavelengths through `wave`), and
     # sampled / binned again: the second answers must be those of the new data
     for i in range(max(n // 12, 10)):
